@@ -22,8 +22,13 @@ def stored_names(a: ast.AST) -> Set[str]:
     out = set()
     if a is None:
         return out
+    # targets of a comprehension are local to the comprehension (Python 3): they bind nothing in the enclosing function
+    comp_local = set()
     for n in ast.walk(a):
-        if isinstance(n, ast.Name) and isinstance(n.ctx, (ast.Store, ast.Del)):
+        if isinstance(n, ast.comprehension):
+            comp_local |= {id(x) for x in ast.walk(n.target) if isinstance(x, ast.Name)}
+    for n in ast.walk(a):
+        if isinstance(n, ast.Name) and isinstance(n.ctx, (ast.Store, ast.Del)) and id(n) not in comp_local:
             out.add(n.id)
         elif isinstance(n, (ast.FunctionDef, ast.ClassDef)):
             out.add(n.name)
